@@ -47,6 +47,9 @@ func runC14(t *simrt.Tape, o Opts) Outcome {
 	s := simrt.Run(t, cfg, func(s *simrt.Sim) {
 		w = world.New(s, "C14")
 		st.Oracle = map[string]int{}
+		if t.Choose(3, "memstore") == 1 {
+			w.UseMemoryMetastore()
+		}
 		sc := t.Choose(scCount, "scenario")
 		pol := world.GenPolicy(t, world.GenOpts{AllowTinyLFU: allowTinyLFU})
 		pol.Precision = []time.Duration{time.Minute, time.Hour, time.Second}[t.Choose(3, "prec")]
@@ -166,6 +169,10 @@ func runC14(t *simrt.Tape, o Opts) Outcome {
 					w.Violate("row-modified", "row-modified", "row %s@%d was modified after insertion", id, c)
 				}
 			}
+		}
+		for _, ch := range w.AliasedRowChanges() {
+			count(st.Oracle, "aliased-row-unmodified")
+			w.Violate("row-modified", "row-modified/through-returned-pointer", "a record stored in the (real in-memory) metastore was changed after insertion: %s", ch)
 		}
 		for _, e := range w.Store.Log {
 			if e.Kind != "insert" && e.By != "operator" && e.By != "foreign" {
